@@ -216,5 +216,184 @@ theorem request_spec (t t' : Tree) (fuel : Nat) (ch : Change) (win : Id) (h : re
         cases h
         exact ⟨rfl, rfl, rfl, fun hx => by simp [hx], Or.inr ⟨p, rfl⟩⟩
 
+/-! ### the store after `tickit_window_close`, window by window -/
+
+theorem core_set_of_core (t : Tree) (id : Id) (w w' : Win) (hw : t.wins[id]? = some w) (hc : core w' = core w) (x : Id) :
+    ((WinTree.set t id w').wins[x]?).map core = (t.wins[x]?).map core := by
+  by_cases hx : x = id
+  · subst hx
+    rw [set_wins_self t x w w' hw, hw]
+    simp [hc]
+  · rw [set_wins_other t id x w' hx]
+
+theorem close_shape (t t' : Tree) (fuel : Nat) (id : Id) (h : WinTree.close t fuel id = .ok t') :
+    ∃ w0, t.wins[id]? = some w0 ∧
+     ((w0.parent = none ∧ ∀ x : Id, (t'.wins[x]?).map core = (t.wins[x]?).map core) ∨
+      (∃ p pw, w0.parent = some p ∧ t.wins[p]? = some pw ∧ id ∈ pw.children ∧
+        (∀ x : Id, x ≠ p → x ≠ id → (t'.wins[x]?).map core = (t.wins[x]?).map core) ∧
+        (∃ w0', t'.wins[id]? = some w0' ∧ w0'.parent = none ∧ (p ≠ id → w0'.children = w0.children)) ∧
+        (p ≠ id → ∃ pw', t'.wins[p]? = some pw' ∧ pw'.parent = pw.parent ∧ pw'.children = pw.children.erase id))) := by
+  unfold WinTree.close at h
+  simp only [bind, Bind.bind] at h
+  cases hg : WinTree.get t id with
+  | ub e => rw [hg] at h; cases h
+  | ok w0 =>
+    rw [hg] at h
+    simp only at h
+    have hw0 := get_ok hg
+    refine ⟨w0, hw0.1, ?_⟩
+    have fin : ∀ (tc : Tree), WinTree.modify tc id (fun w => { w with isClosed := true }) = .ok t' →
+        ∀ x : Id, (t'.wins[x]?).map core = (tc.wins[x]?).map core := by
+      intro tc hm
+      unfold WinTree.modify at hm
+      simp only [bind, Bind.bind] at hm
+      cases hgc : WinTree.get tc id with
+      | ub e => rw [hgc] at hm; cases hm
+      | ok wc =>
+        rw [hgc] at hm
+        simp only [pure, Pure.pure] at hm
+        cases hm
+        exact core_set_closed tc id wc (get_ok hgc).1
+    cases hp : w0.parent with
+    | none =>
+      simp only [hp, pure, Pure.pure] at h
+      exact Or.inl ⟨rfl, fin t h⟩
+    | some p =>
+      simp only [hp] at h
+      right
+      cases hpu : purgeHierarchyChanges t fuel id with
+      | ub e => rw [hpu] at h; cases h
+      | ok tq =>
+        rw [hpu] at h
+        simp only at h
+        have hqw := (purge_spec t fuel id tq hpu).1
+        cases hd : doHierarchyChange tq fuel .remove p id with
+        | ub e => rw [hd] at h; cases h
+        | ok td =>
+          rw [hd] at h
+          simp only at h
+          have hfin := fin td h
+          unfold doHierarchyChange at hd
+          simp only [bind, Bind.bind] at hd
+          rw [get_congr_wins hqw p, get_congr_wins hqw id, hg] at hd
+          cases hgp : WinTree.get t p with
+          | ub e => rw [hgp] at hd; cases hd
+          | ok pw =>
+            rw [hgp] at hd
+            have hpw := get_ok hgp
+            simp only at hd
+            cases hlr : listRemove pw.children id with
+            | ub e => rw [hlr] at hd; cases hd
+            | ok cs =>
+              rw [hlr] at hd
+              simp only at hd
+              obtain ⟨hcs, hmem⟩ := listRemove_spec _ _ _ hlr
+              generalize hpw' : ({ pw with children := cs, focusedChild := if pw.focusedChild = some id then none else pw.focusedChild } : Win) = pw' at hd
+              have hpw'f : pw'.parent = pw.parent ∧ pw'.children = pw.children.erase id := by
+                rw [← hpw', hcs]; exact ⟨rfl, rfl⟩
+              generalize hta : WinTree.set tq p pw' = ta at hd
+              cases hga : WinTree.get ta id with
+              | ub e => rw [hga] at hd; cases hd
+              | ok wa =>
+                rw [hga] at hd
+                have hwa := get_ok hga
+                simp only [pure, Pure.pure] at hd
+                generalize htb : WinTree.set ta id { wa with parent := none } = tb at hd
+                have hb_id : tb.wins[id]? = some { wa with parent := none } := by
+                  rw [← htb]; exact set_wins_self ta id wa _ hwa.1
+                have hb_other : ∀ x : Id, x ≠ p → x ≠ id → tb.wins[x]? = t.wins[x]? := by
+                  intro x hxp hxi
+                  rw [← htb, set_wins_other ta id x _ hxi, ← hta, set_wins_other tq p x _ hxp, hqw]
+                have hwa_eq : p ≠ id → wa = w0 := by
+                  intro hpi
+                  have : ta.wins[id]? = some w0 := by
+                    rw [← hta, set_wins_other tq p id _ (Ne.symm hpi), hqw]; exact hw0.1
+                  rw [hwa.1] at this
+                  exact Option.some.inj this
+                have hb_p : p ≠ id → tb.wins[p]? = some pw' := by
+                  intro hpi
+                  rw [← htb, set_wins_other ta id p _ hpi, ← hta]
+                  exact set_wins_self tq p pw _ (by rw [hqw]; exact hpw.1)
+                have hwd : td.wins = tb.wins := by
+                  split at hd
+                  · exact (expose_wins_root _ tb p _ td hd).1
+                  · cases hd; rfl
+                refine ⟨p, pw, rfl, hpw.1, hmem, ?_, ?_, ?_⟩
+                · intro x hxp hxi
+                  rw [hfin x, hwd, hb_other x hxp hxi]
+                · have := hfin id
+                  rw [hwd, hb_id] at this
+                  cases hti : t'.wins[id]? with
+                  | none => rw [hti] at this; simp at this
+                  | some w0' =>
+                    rw [hti] at this
+                    simp only [Option.map_some, Option.some.injEq, core, Prod.mk.injEq] at this
+                    exact ⟨w0', rfl, this.2.2.2.2.1, fun hpi => by rw [this.2.2.2.1, hwa_eq hpi]⟩
+                · intro hpi
+                  have := hfin p
+                  rw [hwd, hb_p hpi] at this
+                  cases hti : t'.wins[p]? with
+                  | none => rw [hti] at this; simp at this
+                  | some pw2 =>
+                    rw [hti] at this
+                    simp only [Option.map_some, Option.some.injEq, core, Prod.mk.injEq] at this
+                    exact ⟨pw2, rfl, by rw [this.2.2.2.2.1]; exact hpw'f.1, by rw [this.2.2.2.1]; exact hpw'f.2⟩
+
+theorem close_pc (t t' : Tree) (fuel : Nat) (id : Id) (h : WinTree.close t fuel id = .ok t') (hns : NoSelfParent t)
+    (hpl : ParentListed t) : ParentListed t' := by
+  obtain ⟨w0, hw0, hcase⟩ := close_shape t t' fuel id h
+  rcases hcase with ⟨_, hcore⟩ | ⟨p, pw, hp, hpw, hmem, hother, ⟨w0', hw0', hw0p, hw0c⟩, hpp⟩
+  · exact parentListed_core hcore hpl
+  · have hpi : p ≠ id := fun hx => hns id w0 hw0 (by rw [hp, hx])
+    obtain ⟨pw', hpw', hpwp, hpwc⟩ := hpp hpi
+    -- the children of any window `q` in `t'`, from those in `t`
+    have hkids : ∀ (q : Id) (qw : Win) (x : Nat), t.wins[q]? = some qw → x ∈ qw.children → x ≠ id →
+        ∃ qw', t'.wins[q]? = some qw' ∧ x ∈ qw'.children := by
+      intro q qw x hqw hx hxi
+      by_cases hqp : q = p
+      · subst hqp
+        rw [hpw] at hqw; cases hqw
+        exact ⟨pw', hpw', by rw [hpwc]; exact (List.mem_erase_of_ne hxi).2 hx⟩
+      · by_cases hqi : q = id
+        · subst hqi
+          rw [hw0] at hqw; cases hqw
+          exact ⟨w0', hw0', by rw [hw0c hpi]; exact hx⟩
+        · obtain ⟨qw', hqw', hc⟩ := map_core_some (hother q hqp hqi) hqw
+          simp only [core, Prod.mk.injEq] at hc
+          exact ⟨qw', hqw', by rw [hc.2.2.2.1]; exact hx⟩
+    intro x wb q hwb hq
+    by_cases hxi : x = id
+    · subst hxi
+      rw [hw0'] at hwb; cases hwb
+      rw [hw0p] at hq; cases hq
+    · by_cases hxp : x = p
+      · subst hxp
+        rw [hpw'] at hwb; cases hwb
+        rw [hpwp] at hq
+        obtain ⟨qw, hqw, hm⟩ := hpl x pw q hpw hq
+        exact hkids q qw x hqw hm hxi
+      · obtain ⟨w, hw, hc⟩ := map_core_some (hother x hxp hxi).symm hwb
+        simp only [core, Prod.mk.injEq] at hc
+        obtain ⟨qw, hqw, hm⟩ := hpl x w q hw (by rw [hc.2.2.2.2.1]; exact hq)
+        exact hkids q qw x hqw hm hxi
+
+theorem parentListed_sameBut {t t' : Tree} {id : Id} (h : SameBut t t' id) (hp : ParentListed t) : ParentListed t' := by
+  intro x w' p hw' hpar
+  obtain ⟨w, hw, hc⟩ := noVis_some (sameBut_noVis h x).symm hw'
+  simp only [coreNoVis, Prod.mk.injEq] at hc
+  obtain ⟨pw, hpw, hmem⟩ := hp x w p hw (by rw [hc.2.2.2.1]; exact hpar)
+  obtain ⟨pw', hpw', hc'⟩ := noVis_some (sameBut_noVis h p) hpw
+  simp only [coreNoVis, Prod.mk.injEq] at hc'
+  exact ⟨pw', hpw', by rw [hc'.2.2.1]; exact hmem⟩
+
+theorem parentListed_sameButG {t t' : Tree} {id : Id} (h : SameButG t t' id) (hp : ParentListed t) : ParentListed t' := by
+  intro x w' p hw' hpar
+  obtain ⟨w, hw, hc, _⟩ := sameButG_struct (sameButG_symm h) x hw'
+  simp only [coreSelf, Prod.mk.injEq] at hc
+  obtain ⟨pw, hpw, hmem⟩ := hp x w p hw (by rw [hc.2.2.1]; exact hpar)
+  obtain ⟨pw', hpw', hc', _⟩ := sameButG_struct h p hpw
+  simp only [coreSelf, Prod.mk.injEq] at hc'
+  exact ⟨pw', hpw', by rw [hc'.2.1]; exact hmem⟩
+
 end WinFlush
 end Tickit
